@@ -70,25 +70,129 @@ def rpowQ (x y : Rat) : Option Rat :=
   else if x == 0 then (if y == 0 then some 1 else if y > 0 then some 0 else none)
   else none
 
+/-- the driver's number type for the eight transcendental densities: `none` = outside the domain of a function /
+overflow, `some q` with `q` a dyadic rational carrying a 256-bit mantissa.  EVERY operation is rounded to 256
+bits (`rnd`): the values stay dyadic, so that sums over a thousand axis points do not accumulate a common
+denominator of tens of thousands of digits.  (The opaque functions are good to 40 digits; 256 bits = 77 digits.) -/
 abbrev XR := Option Rat
-instance : Add XR := ⟨fun a b => a.bind fun x => b.map fun y => x + y⟩
-instance : Sub XR := ⟨fun a b => a.bind fun x => b.map fun y => x - y⟩
-instance : Mul XR := ⟨fun a b => a.bind fun x => b.map fun y => x * y⟩
+
+/-- round towards −∞ to a 256-bit mantissa: `⌊q · 2^(256 − e)⌋ / 2^(256 − e)`, `e ≈ log₂ |q|` -/
+def rnd (q : Rat) : Rat :=
+  if q.num == 0 then 0
+  else
+    let e : Int := (Nat.log2 q.num.natAbs : Int) - (Nat.log2 q.den : Int)
+    let k : Int := 256 - e
+    if k ≥ 0 then
+      let p : Nat := 2 ^ k.toNat
+      ((q * (p : Rat)).floor : Rat) / (p : Rat)
+    else
+      let p : Nat := 2 ^ (-k).toNat
+      (((q / (p : Rat)).floor : Int) : Rat) * (p : Rat)
+
+instance : Add XR := ⟨fun a b => a.bind fun x => b.map fun y => rnd (x + y)⟩
+instance : Sub XR := ⟨fun a b => a.bind fun x => b.map fun y => rnd (x - y)⟩
+instance : Mul XR := ⟨fun a b => a.bind fun x => b.map fun y => rnd (x * y)⟩
 instance : Neg XR := ⟨fun a => a.map fun x => -x⟩
 instance : Zero XR := ⟨some 0⟩
-instance : Div XR := ⟨fun a b => a.bind fun x => b.bind fun y => if y == 0 then none else some (x / y)⟩
+instance : Div XR := ⟨fun a b => a.bind fun x => b.bind fun y => if y == 0 then none else some (rnd (x / y))⟩
 
 def specialQ : Special XR where
-  ofRat := some
-  exp := fun t => t.bind expQ
-  log := fun t => t.bind logQ
-  rpow := fun a b => a.bind fun x => b.bind fun y => rpowQ x y
+  ofRat := fun q => some (rnd q)
+  exp := fun t => (t.bind expQ).map rnd
+  log := fun t => (t.bind logQ).map rnd
+  rpow := fun a b => (a.bind fun x => b.bind fun y => rpowQ x y).map rnd
   abs := fun t => t.map absR
-  s2pi := some s2piQ
+  s2pi := some (rnd s2piQ)
 
 /-- `erfinvWith` over `Rat` with π and the value of `log1p(-x·x)` supplied by the caller and `sqrtQ` for sqrt -/
 def erfinvRat (pi l x : Rat) : Rat :=
   erfinvWith (K := Rat) ⟨id, pi, fun _ => l, sqrtQ⟩ x
+
+/-- a generator by name: axis kind, density, factors of the density (both as modelled, the opaque functions at 40
+digits), the location that is subtracted from `x` (0 if none) and whether the density goes through `log x − mu` -/
+structure Gen where
+  /-- the generator itself (`beta`, `exponential`, … of `PewModel/Convolve.lean`: the subject of `*_isKernel`) -/
+  rows : Nat → Rat → Rat → List (Rat × XR)
+  kind : AxisKind
+  pdf : Rat → XR
+  factors : Rat → List XR
+  /-- other intermediate values of the coded expression (operands of a quotient that forms one factor: `σ·√(2π)`,
+  `2·b·x`, `βᵅ`, `Γ(α)·Γ(β)`, …): each must stay a finite non-zero double for the factor to be what the model says -/
+  aux : Rat → List XR
+  loc : Rat
+  logk : Bool
+
+def genOf (name : String) (args : List Rat) : R Gen := do
+  let a0 := args.getD 0 0
+  let a1 := args.getD 1 0
+  let need (k : Nat) : R Unit := if args.length == k then pure () else throw s!"{name}: {k} parameters expected"
+  match name with
+  | "beta" => do need 2; pure ⟨fun n sc sh => beta specialQ n a0 a1 sc sh, .unit, betaPdf specialQ a0 a1, betaFactors specialQ a0 a1,
+      fun _ => [some (gammaApprox a0), some (gammaApprox a1), some (gammaApprox a0 * gammaApprox a1), some (gammaApprox (a0 + a1)),
+                some (gammaApprox a0 * gammaApprox a1 / gammaApprox (a0 + a1))], 0, false⟩
+  | "exponential" => do need 1; pure ⟨fun n sc sh => exponential specialQ n a0 sc sh, .pos, exponentialPdf specialQ a0, exponentialFactors specialQ a0, fun _ => [], 0, false⟩
+  | "inversegamma" => do need 2; pure ⟨fun n sc sh => inversegamma specialQ n a0 a1 sc sh, .pos, inversegammaPdf specialQ a0 a1, inversegammaFactors specialQ a0 a1,
+      fun _ => [specialQ.rpow (some a1) (some a0), some (gammaApprox a0)], 0, false⟩
+  | "laplace" => do need 2; pure ⟨fun n sc sh => laplace specialQ n a0 a1 sc sh, .sym, laplacePdf specialQ a0 a1, laplaceFactors specialQ a0 a1, fun _ => [some (2 * a0)], a1, false⟩
+  | "loglaplace" => do need 2; pure ⟨fun n sc sh => loglaplace specialQ n a0 a1 sc sh, .pos, loglaplacePdf specialQ a0 a1, loglaplaceFactors specialQ a0 a1, fun x => [some (2 * a0), some (2 * a0 * x)], a1, true⟩
+  | "lognormal" => do need 2; pure ⟨fun n sc sh => lognormal specialQ n a0 a1 sc sh, .pos, lognormalPdf specialQ a0 a1, lognormalFactors specialQ a0 a1, fun x => [some (x * a0), some (x * a0 * s2piQ)], a1, true⟩
+  | "normal" => do need 2; pure ⟨fun n sc sh => normal specialQ n a0 a1 sc sh, .sym, normalPdf specialQ a0 a1, normalFactors specialQ a0 a1, fun _ => [some (a0 * s2piQ)], a1, false⟩
+  | "super_gaussian" => do
+      need 3
+      let p := args.getD 2 0
+      if p.den != 1 || p < 0 then throw "super_gaussian: integer power expected"
+      pure ⟨fun n sc sh => superGaussian specialQ n a0 a1 p.num.toNat sc sh, .sym, superGaussianPdf specialQ a0 a1 p.num.toNat, superGaussianFactors specialQ a0 a1 p.num.toNat,
+            fun _ => [some (a0 * s2piQ)], a1, false⟩
+  | _ => throw s!"unknown generator {name}"
+
+def allSome (l : List XR) : Option (List Rat) := l.mapM id
+
+/-- how far the point at which a double-precision evaluation really samples the density may lie from the exact
+axis point `x`: the rounding of `linspace` and of `x − loc` (`2⁻⁴⁰` of the largest magnitude involved, 4000 ulp)
+and, for the densities that go through `log x − mu`, the rounding of that difference expressed as a relative
+change of `x` -/
+def tailDelta (g : Gen) (axis : List Rat) (x : Rat) : Rat :=
+  let big := axis.foldl (fun m v => max m (absR v)) 0 + absR g.loc
+  big / 2 ^ 40 + (if g.logk then absR x * (1 + absR g.loc) / 2 ^ 36 else 0)
+
+/-- THE DECISION "the float sum of the densities is positive and finite" (specification side, nothing of the
+implementation is looked at): `robust` = at the axis point of largest modelled density, and at that point moved
+by `± tailDelta`, every product of a sub-collection of the factors lies in `[8·2⁻¹⁰⁷⁴, 2¹⁰⁰⁰]`
+(`robustFactors`, `robustFactors_spec`); `overflow` = at some axis point a factor leaves the domain of its
+function, a sub-product exceeds `2¹⁰⁰⁰` (an `inf` may appear, and `inf · 0 = nan`) or an operand inside a factor
+(`aux`) leaves `[2⁻¹⁰⁰⁰, 2¹⁰⁰⁰]`. -/
+def tailDecision (g : Gen) (axis : List Rat) : Json :=
+  let dens := axis.map g.pdf
+  let best : Option (Rat × Rat) := (axis.zip dens).foldl
+    (fun acc (x, d) => match d, acc with
+      | some v, some (_, bv) => if bv < v then some (x, v) else acc
+      | some v, none => some (x, v)
+      | none, _ => acc) none
+  let facs := axis.map (fun x => allSome (g.factors x))
+  let auxBad (x : Rat) : Bool := (g.aux x).any (fun v => match v with
+    | none => true
+    | some q => decide (tailHi < absR q) || decide (absR q < 1 / tailHi))
+  let overflow := facs.any (fun f => match f with | none => true | some fs => overflowFactors fs) || axis.any auxBad
+  let robustAt (x : Rat) : Bool := match allSome (g.factors x) with
+    | none => false
+    | some fs => robustFactors fs
+  let (robust, delta) : Bool × Rat := match best with
+    | none => (false, 0)
+    | some (x, _) =>
+      let d := tailDelta g axis x
+      -- the end points of `linspace` are exact, no sampled point lies outside them
+      let lo := axis.foldl min x
+      let hi := axis.foldl max x
+      (robustAt x && robustAt (max lo (x - d)) && robustAt (min hi (x + d)), d)
+  let dsum : Option Rat := (allSome dens).map List.sum
+  -- how much an absolute error of one subnormal step in an intermediate product may be magnified by the factors
+  -- above 1 that are multiplied in afterwards (for the tolerance of the weight-by-weight comparison only)
+  let amp : Rat := facs.foldl (fun m f => match f with
+    | none => m
+    | some fs => max m (fs.foldl (fun p v => p * max 1 v) 1)) 1
+  jObj [("robust", jBool robust), ("overflow", jBool overflow), ("delta", jRat delta),
+        ("dsum", jOpt jRat dsum), ("amp", jRat amp), ("dmax", jOpt jRat (best.map Prod.snd)),
+        ("best_x", jOpt jRat (best.map Prod.fst))]
 
 def handle (op : String) (req : Json) : R Json := do
   match op with
@@ -106,11 +210,13 @@ def handle (op : String) (req : Json) : R Json := do
       match x with
       | c :: rest => if rest.all (· == c) && psf.sum == 1 then some c else none
       | [] => none
-    -- the modes handed straight to numpy (n ≥ m): full, valid, same (= full[(m-1)/2 ..][:n])
+    -- the modes handed straight to numpy: full, valid, same (= full[(min n m - 1)/2 ..][: max n m]; numpy swaps the
+    -- arguments when the kernel is the longer one)
     let full := fullConv x psf
     pure (jObj [("model", jRats out),
                 ("full", jRats full), ("valid", jRats (convValid x psf)),
-                ("same", jRats ((full.drop ((m - 1) / 2)).take (max n m))),
+                ("same", jRats ((full.drop ((min n m - 1) / 2)).take (max n m))),
+                ("entries", jRats (padConvSpec x psf)),
                 ("spec", jObj [("length", jNat n),
                                ("interior", jList (fun k => jList id [jNat k, jRat (fullConvAt x psf (k + shiftC))]) interior),
                                ("constant", jOpt jRat const)])])
@@ -175,32 +281,19 @@ def handle (op : String) (req : Json) : R Json := do
     pure (jObj [("x", jRats (rows.map Prod.fst)), ("y", jRats (rows.map Prod.snd)),
                 ("hyp", jBool (decide (a < b) && inside))])
   | "c18.kernel" =>
-    -- a generator as modelled, the opaque functions at 40 digits; y = null when a value left the functions' domain
+    -- a generator as modelled, the opaque functions at 40 digits; y = null when a value left the functions' domain;
+    -- tail = the decision whether a double-precision evaluation of the densities has a positive finite sum
     let name ← getStr req "name"
     let size ← getNat req "size"
     let args ← getList asRat req "args"
     let scale ← getRat req "scale"
     let shift ← getRat req "shift"
-    let a0 := args.getD 0 0
-    let a1 := args.getD 1 0
-    let need (k : Nat) : R Unit := if args.length == k then pure () else throw s!"{name}: {k} parameters expected"
-    let rows : List (Rat × XR) ← match name with
-      | "beta" => do need 2; pure (beta specialQ size a0 a1 scale shift)
-      | "exponential" => do need 1; pure (exponential specialQ size a0 scale shift)
-      | "inversegamma" => do need 2; pure (inversegamma specialQ size a0 a1 scale shift)
-      | "laplace" => do need 2; pure (laplace specialQ size a0 a1 scale shift)
-      | "loglaplace" => do need 2; pure (loglaplace specialQ size a0 a1 scale shift)
-      | "lognormal" => do need 2; pure (lognormal specialQ size a0 a1 scale shift)
-      | "normal" => do need 2; pure (normal specialQ size a0 a1 scale shift)
-      | "super_gaussian" => do
-          need 3
-          let p := args.getD 2 0
-          if p.den != 1 || p < 0 then throw "super_gaussian: integer power expected"
-          pure (superGaussian specialQ size a0 a1 p.num.toNat scale shift)
-      | _ => throw s!"unknown generator {name}"
+    let g ← genOf name args
+    let rows : List (Rat × XR) := g.rows size scale shift
     let ys := rows.map Prod.snd
     let y : Option (List Rat) := if ys.all Option.isSome then some (ys.map (·.getD 0)) else none
-    pure (jObj [("x", jRats (rows.map Prod.fst)), ("y", jOpt jRats y)])
+    pure (jObj [("x", jRats (rows.map Prod.fst)), ("y", jOpt jRats y),
+                ("tail", tailDecision g (axisOf g.kind size scale shift))])
   | _ => throw s!"unknown op {op}"
 
 end PewDriver.C18
